@@ -64,6 +64,7 @@ type ErrPlan struct {
 	NilErr    bool // NewError(code, nil)
 	Details   []DetailPlan
 	Meta      http.Header
+	RawMeta   http.Header // metadata stored under map keys the application wrote by hand (err.Meta()["x-request-id"] = ...), not through Add/Set
 	ProxyMeta http.Header // status keys of an upstream error passed through in the error's metadata (a proxying handler)
 	CtxErr    bool        // wait for the handler's context to finish, return ctx.Err()
 	CtxKind   int         // 1 context.Canceled, 2 context.DeadlineExceeded, 3/4 the same wrapped with %w
